@@ -22,7 +22,8 @@ RULE = ('headers **text **dynam **dyn **harm **mxhm **fing and three unknown one
 ASSUMPTIONS = ['the ANTLR recogniser is a parameter: the model is told what a fresh KernSpineImporter does with each cell',
                'every category the kern listener can produce is in the generated listener category set (checked on every explored cell)']
 
-HEADERS = ['**text', '**dynam', '**dyn', '**harm', '**mxhm', '**fing', '**unknown', '**silbe', '**x']
+HEADERS = ['**text', '**dynam', '**dyn', '**harm', '**mxhm', '**fing', '**unknown', '**silbe', '**x',
+           '**har', '**tex', '**dyna', '**fin', '**mx', '**roo', '**ker', '**men', '**k', '**Text', '**HARM', '**textual']
 
 
 def explore(ctx, depth):
